@@ -35,7 +35,7 @@ ALL_FEATURES = {
     "array_pop", "early_return", "shadowing", "else_if", "assert_stmt", "array_pass", "struct_pass",
     "string_escapes", "effectful_logic", "continue_in_for", "print_enum", "min_max", "array_slice",
     "array_struct", "float_arith", "deep_expr", "array_alias", "str_substring", "char_at", "global_shadow",
-    "unused_results", "long_strings", "self_compare", "tuple_pass", "effectful_args", "shadow_type_change", "out_of_scope_reference", "array_float", "struct_array_field", "fn_returning_composite", "print_float", "loop_nest", "global_init_expr", "guard_idiom", "ext_builtins", "field_of_call", "global_init_call", "enum_wide_values", "enum_ordering", "exit_in_match_arm", "string_lifetimes", "shared_field_names",
+    "unused_results", "long_strings", "self_compare", "tuple_pass", "effectful_args", "shadow_type_change", "out_of_scope_reference", "array_float", "struct_array_field", "fn_returning_composite", "print_float", "loop_nest", "global_init_expr", "guard_idiom", "ext_builtins", "field_of_call", "global_init_call", "enum_wide_values", "enum_ordering", "exit_in_match_arm", "string_lifetimes", "shared_field_names", "hashmaps",
 }
 
 
@@ -62,6 +62,8 @@ def type_str(t):
         return "(" + ", ".join(type_str(x) for x in t[1]) + ")"
     if k == "fn":
         return "fn(" + ", ".join(type_str(x) for x in t[1]) + ") -> " + type_str(t[2])
+    if k == "hashmap":
+        return "HashMap<%s, %s>" % (type_str(t[1]), type_str(t[2]))
     raise ValueError(t)
 
 
@@ -1372,6 +1374,34 @@ def gen_string_lifetimes(g, sc, cx, out):
         g.use("string_alias_then_reassign")
 
 
+def gen_hashmap_idiom(g, sc, cx, out):
+    """A HashMap local used only here: inserts, an overwrite of an existing key with a freshly built value, a removal,
+    then reads. The overwritten and the removed value are heap objects when the value type is string."""
+    kt, vt = g.pick([("int", "string"), ("string", "int"), ("string", "string"), ("int", "int")])
+    hm = g.fresh("h")
+    out.append(("let", hm, ("hashmap", kt, vt), ("bi", "map_new", []), False))
+    keys = [("int", 1), ("int", 2), ("int", 7)] if kt == "int" else [("str", b"a"), ("str", b"bb"), ("str", b"k7")]
+    def val(j):
+        if vt == "int":
+            return ("int", 10 * j + g.i(0, 5))
+        return ("bin", "+", ("str", b"v%d" % j), ("bi", "int_to_string", [("int", g.i(0, 99))]), "p")
+    out.append(("expr", ("bi", "map_put", [("var", hm), keys[0], val(1)])))
+    out.append(("expr", ("bi", "map_put", [("var", hm), keys[1], val(2)])))
+    out.append(("expr", ("bi", "map_put", [("var", hm), keys[0], val(3)])))       # overwrite
+    out.append(("println", ("bi", "map_get", [("var", hm), keys[0]])))
+    if g.b():
+        out.append(("expr", ("bi", "map_put", [("var", hm), keys[0], val(4)])))   # and again
+        out.append(("println", ("bi", "map_get", [("var", hm), keys[0]])))
+    out.append(("println", ("bi", "map_has", [("var", hm), keys[2]])))
+    out.append(("println", ("bi", "map_length", [("var", hm)])))
+    if g.b():
+        out.append(("expr", ("bi", "map_remove", [("var", hm), keys[1]])))
+        out.append(("println", ("bi", "map_has", [("var", hm), keys[1]])))
+        out.append(("println", ("bi", "map_length", [("var", hm)])))
+    out.append(("println", ("bi", "map_get", [("var", hm), keys[0]])))
+    g.use("hashmap_idiom_%s_%s" % (kt, vt))
+
+
 def gen_guard_idiom(g, sc, cx, out):
     """Index guards that rely on short-circuit evaluation: the loop runs one past the end of the array and the element
     is only read behind `(or (>= i n) ..)` / `(and (< i n) ..)`."""
@@ -1434,8 +1464,13 @@ def gen_block(g, sc, cx, budget):
     out = []
     n = g.i(1, max(1, min(6, budget)))
     for _ in range(n):
-        k = g.i(0, 26)
-        if k == 26:
+        k = g.i(0, 27)
+        if k == 27:
+            if g.has("hashmaps") and g.has("strings"):
+                gen_hashmap_idiom(g, sc, cx, out)
+            else:
+                gen_let(g, sc, cx, out)
+        elif k == 26:
             if g.has("string_lifetimes") and g.has("strings"):
                 gen_string_lifetimes(g, sc, cx, out)
             else:
